@@ -235,14 +235,14 @@ def gen_ops(rng, tier):
             names = [rng.choice(["H1", "bmi"]) for _ in range(m)]
             names[1] = names[0]
             cs = None
-        yield {"samples": [f"s{i}" for i in range(ns)], "names": names, "data": data, "rs": rng.choice([None, rng.sample([f"s{i}" for i in range(ns)] + ["zz"], rng.randint(1, ns + 1))]), "cs": cs}
+        yield {"samples": [f"s{i}" for i in range(ns)], "names": names, "data": data, "rs": rng.choice([None, rng.sample([f"s{i}" for i in range(ns)] + ["zz"], rng.randint(1, ns + 1))]), "cs": cs, "cov": rng.random() < 0.3}
 
 
 def impl_ops(case):
     from haptools import data as D
 
     def mk():
-        p = D.Phenotypes("x.pheno", log=SD.silent_log())
+        p = (D.Covariates if case.get("cov") else D.Phenotypes)("x.pheno", log=SD.silent_log())
         p.samples, p.names = tuple(case["samples"]), tuple(case["names"])
         p.data = np.array(case["data"], dtype=np.float64)
         return p
